@@ -156,7 +156,8 @@ def ref_callable(name, x, args=(), kwargs=()):
         r = ref_in_range(x, arg(0, "lower"), arg(1, "upper"))
         return UNDEF if r is UNDEF else (not r)
     if name == "equal_to_approx":
-        v, tol = arg(0, "value"), arg(1, "tolerance")
+        v = arg(0, "value")
+        tol = arg(1, "tolerance") if (len(args) > 1 or "tolerance" in kw) else 1e-8  # documented default
         if is_num(x) and is_num(v) and is_num(tol):
             return abs(x - v) < tol
         return UNDEF
